@@ -3,6 +3,7 @@ CONSTANTS
   File <- FilesA
   FDataSeq <- DataA
   FOther <- OtherA
+  FSplit <- SplitA
   Caps <- GenCaps
 INVARIANT EmitFull
 CHECK_DEADLOCK FALSE
